@@ -116,20 +116,6 @@ class Dtor(object):
     def __call__(self, arg):
         self.hist.on_call(self, arg)
 
-    def _free(self, arg):
-        # used as a *bound method*: wrapper -> method object -> this owner (-> .fields -> wrapper)
-        self.hist.on_call(self, arg)
-
-    def as_callable(self, how):
-        """what is handed to ffi.gc() / new_allocator(): the object itself, a bound method of it, or a closure
-        capturing it and the list that may hold the wrapper"""
-        if how == "method":
-            return self._free
-        if how == "closure":
-            holder = self.fields
-            return lambda arg, holder=holder, owner=self: (holder, owner.hist.on_call(owner, arg))[1]
-        return self
-
 
 class Buf(bytearray):
     pass                         # instances have a __dict__: .fields
@@ -211,7 +197,6 @@ class Hist(object):
         self.gc_silent_done = True
         self.nested_ops = 0
         self.timeout = None
-        self.free_how = None
         self.thread_done = False
         self.role = {}             # destructor object id -> "gc" (used by one ffi.gc call) | "free" (of an allocator)
 
@@ -483,9 +468,7 @@ class Hist(object):
                 raw = ffi1.new("char[]", max(size, 1))
                 pend.append(raw)
                 return raw
-            how = self.rng.choice(["plain", "method", "closure"]) if self.free_how is None else self.free_how
-            self.allocators[key] = self.ffi.new_allocator(alloc, None if free_obj is None else free_obj.as_callable(how))
-            self.count("free-callable:" + how)
+            self.allocators[key] = self.ffi.new_allocator(alloc, free_obj)
         return self.allocators[key]
 
     def op_alloc(self, struct, free=None):
@@ -529,7 +512,7 @@ class Hist(object):
     def dtor_role(self, r):
         return self.role.get(r.mid)
 
-    def op_gc(self, p=None, d=None, how=None):
+    def op_gc(self, p=None, d=None):
         p = p or self.pick(lambda r: r.kind in ("plain", "struct", "structptr", "gcp", "frombuf", "handle", "raw"))
         if p is None:
             return False
@@ -538,9 +521,7 @@ class Hist(object):
             self.op_new_py("dtor")
             d = (len(self.slots) - 1,) + self.slots[-1]
         self.role[d[1]] = "gc"
-        how = how or self.rng.choice(["plain", "plain", "method", "closure"])
-        g = self.ffi.gc(p[2], d[2].as_callable(how))
-        self.count("destructor-callable:" + how)
+        g = self.ffi.gc(p[2], d[2])
         r = self.new_rec("gcp", g)
         r.had_dtor = True
         r.orig_id = id(p[2])
@@ -934,41 +915,21 @@ class Hist(object):
 
     def finish(self):
         # end of the history: drop everything, collect, every armed wrapper must have fired exactly once
-        for _ in range(8):
-            # (destructors called by the collections may create and hold new objects: again)
-            while self.slots and not self.broken:
-                self.op_drop(len(self.slots) - 1)
-            del self.slots[:]
-            self.allocators.clear()
-            if self.broken:
-                break
-            self.settle(True)
-            self.settle(True)
-            if not self.slots:
-                break
+        while self.slots and not self.broken:
+            self.op_drop(len(self.slots) - 1)
+        del self.slots[:]
+        self.allocators.clear()
         if not self.broken:
+            self.settle(True)
+            self.settle(True)
             self.check_clauses()
-        # what is still alive only because a struct pointer (CDataOwning: not a GC type) sits in a cycle
-        excused = set()
-        todo = [r.mid for r in self.recs.values() if r.kind == "structptr" and not r.dead]
-        while todo:
-            m = todo.pop()
-            if m in excused:
-                continue
-            excused.add(m)
-            todo.extend(e for e in self.edges(self.recs[m]) if not self.recs[e].dead)
         for r in self.recs.values():
             if r.kind == "gcp" and not self.broken:
                 self.emit("calls %d" % r.mid, "ok %d" % r.calls, "calls")
                 if not r.dead:
-                    if r.mid in excused or not (r.had_dtor and not r.noned_first and r.calls == 0) or self.slots:
-                        # not a clause of the property: a cycle through a non-GC cdata type (the pointer returned
-                        # by allocator("struct s *") is a CDataOwning object) is never found by the collector
-                        self.count("event:wrapper-never-collected")
-                    else:
-                        self.fail("wrapper %d is unreachable (every reference dropped, gc.collect() run twice, no "
-                                  "cycle through a non-GC cdata object) but was not collected: its %s ran %d times"
-                                  % (r.mid, "free function" if r.is_alloc else "destructor", r.calls))
+                    # not a clause of the property: a cycle through a non-GC cdata type (the pointer returned
+                    # by allocator("struct s *") is a CDataOwning object) is never found by the collector
+                    self.count("event:wrapper-never-collected")
 
     def guarded(self, name, fn):
         try:
@@ -1053,42 +1014,6 @@ class Hist(object):
         elif n == 6:    # two threads, allocation, second thread leaves a `with` block
             self.thread_done = False
             self.op_thread_release(alloc=True, how="with")
-        elif n in (7, 8, 9):   # the wrapper in a cycle through its destructor: bound method of an owner holding
-            #                    the wrapper / closure capturing the list that holds it / the plain callable object
-            self.op_new_plain(); p = self.last()
-            self.op_new_py("dtor", script=[]); d = self.last()
-            self.op_gc(p, d, how={7: "method", 8: "closure", 9: "plain"}[n]); g = self.last()
-            self.do_store(d, (g[1], g[2]))
-            for _ in range(3):
-                self.op_drop(len(self.slots) - 1)
-            self.do_collect()
-            self.do_collect()
-        elif n in (10, 11):    # new_allocator(alloc, free=owner._free / closure), the allocation stored on the owner
-            self.free_how = {10: "method", 11: "closure"}[n]
-            self.op_new_py("dtor", script=[]); f = self.last()
-            self.op_alloc(False, free=f); a = self.last()
-            self.do_store(f, (a[1], a[2]))
-            for _ in range(2):
-                self.op_drop(len(self.slots) - 1)
-            self.allocators.clear()
-            self.do_collect()
-            self.do_collect()
-        elif n == 12:   # control: a cycle through origobj only (wrapper -> handle -> box -> wrapper)
-            self.op_new_py("box"); b = self.last()
-            h = self.ffi.new_handle(b[2])
-            addr = int(self.ffi1.cast("intptr_t", h))
-            a = self.addr_index.setdefault(addr, len(self.addr_index) + 1)
-            rh = self.new_rec("handle", h); rh.addr = addr; rh.target = b[1]
-            self.hold(rh, h)
-            self.emit("new_handle %d %d" % (b[1], a), "ok %d" % rh.mid)
-            hs = self.last()
-            self.op_new_py("dtor", script=[]); d = self.last()
-            self.op_gc(hs, d, how="plain"); g = self.last()
-            self.do_store(b, (g[1], g[2]))
-            for _ in range(4):
-                self.op_drop(len(self.slots) - 1)
-            self.do_collect()
-            self.do_collect()
         else:
             raise AssertionError(n)
 
@@ -1158,7 +1083,7 @@ def in_child(jobs, timeout=600):
     return results, None
 
 
-NSCENARIOS = 13
+NSCENARIOS = 7
 
 
 def jobs_for(ctx, n, tag):
